@@ -256,6 +256,8 @@ def jobs(tier):
     for n, how in ((100, "part:1024:10"), (100, "part:0:7"), (30, "part:0:7"), (50, "part:16:3"), (22, "part:0:21"), (22, "part:1024:22")):
         for sized in (1, 0):
             out.append(dict(func="upload", params=dict(n=n, crc=1, sized=sized, how=how), weight=n))
+    # past 4096 bytes (one value in the quick tier; the thorough tier goes to 9000)
+    out.append(dict(func="upload", params=dict(n=4100, crc=1, sized=1, how="buffered"), weight=5000))
     if q:
         out.append(dict(func="upload", params=dict(n=889, crc=1, sized=1, how="buffered"), weight=900))
         out.append(dict(func="upload", params=dict(n=890, crc=1, sized=1, how="buffered"), weight=900))
